@@ -775,6 +775,8 @@ func (sc *serverConn) closeStream(st *stream, err error) {
 	}
 	delete(sc.streams, st.id)
 	if p := st.body; p != nil {
+		// Return any buffered unread bytes worth of conn-level flow control.
+		sc.sendWindowUpdate(nil, p.Len())
 		p.CloseWithError(err)
 		p.Release(&fixBufferPool)
 	}
